@@ -134,6 +134,30 @@ CLAIMS = {
         technique="TLA+ step machine over value+-error expression trees model-checked by TLC in exact rationals; every tree replayed on NumberError / ParamsTrans (B3); Hessian and fit-fraction errors against finite differences",
         engine="tlc-table",
     ),
+    "C05": dict(
+        category="model_checking",
+        text="(a) spec/Session.tla models the id cache and the compiled graph of AbsPDF (which Python-level state a trace freezes: active chains, coordinate form, mask entries, mask_factor flags); TLC checks CompiledEqualsEager over all session histories and behaviours with density calls are replayed on a real model built with use_tf_function: True, where amp(data) must equal the eager amp.pdf(data). (c) spec/Einsum.tla: the contraction routine is decided exactly and exhaustively on the bounded grammar of programs the amplitude builder emits (chain shapes n=2..4, index sizes 1..3, aligned finals, daughter/decay order, broadcast operands): TLC proves an implementation-shaped model of einsum.py (all set-iteration orders of ordered_indices, all pairwise contraction paths) equal to the reference semantics and emits every program with its expected output; the real tf_pwa.einsum.einsum must return exactly that or raise. (b) spec/Strategies.tla: the strategy option space (4000 combinations, 760 applicable) is enumerated by TLC with the applicability predicate; a covering selection of applicable strategies is compared with plain eager evaluation on density (three parameter points, lazily batched data) and NLL + gradient (1e-8; XLA 1e-6).",
+        design_ref="DESIGN.md 3.1 EvalCache, 3.2 Einsum, 5/C05; notes/C05.md",
+        note="Trusted: TLC, numpy.einsum only as a cross-check of the specification, TensorFlow eager as the reference for strategies; set iteration order inside tf_pwa.einsum is driven by an order-controlled set class placed in the module namespace by the harness; opt_einsum's path is not modelled (TLC explores every pairwise path); strategy equality over events and parameter values is sampled.",
+        technique="TLC step machines (Session.tla cache model, Einsum.tla) + exact replay of every program into the real routine (B3) + behaviours replayed on a compiled model (B1) + TLC-enumerated strategy table compared numerically",
+        engine="tlc-table",
+    ),
+    "C06": dict(
+        category="exploration",
+        text="spec/Likelihood.tla contains the definition of the property (alpha = sum w / sum w^2, background with weight -w_bkg, MC integral with normalised weights, extended lambda term, cfit mixture with efficiency, cfit-extended terms, Gaussian constraint once, sum over simultaneous data sets) and, separately, the algorithm as a step machine transcribed from the code (get_weight_data, FCN pre-batching and MC normalisation, one action per processed data / MC batch, the combination for default / extended / cfit / cfit_extended / cfit_cached / simple, CombineFCN). TLC checks algorithm = definition for every batch size 1..N+1 in exact arithmetic (rationals + formal logarithms as prime-exponent vectors), partition into batches, MC normalisation and f -> lambda f invariance for non-extended kinds. The numpy transliteration of the definition is first held to TLC's exact values on the emitted scenarios, then a stratified sample of scenarios is replayed through ConfigLoader.get_fcn for 9 implementation kinds: fcn(params), nll_grad(params)[0], every batch size, rescaling, CombineFCN = sum of parts, processed batch sizes against TLC's partition table.",
+        design_ref="DESIGN.md 5/C06; notes/C06.md",
+        note="Trusted: TLC; the amplitude object (per-event densities of the oracle come from one unbatched call of the same amplitude); numpy. Assumptions: sum of weights != 0 and MC integral > 0; clip_log is the identity above its threshold; cached models only with floating couplings; inject_mc, MixLogLikehoodFCN, resolution_size > 1 not claimed.",
+        technique="TLA+ step machine of the NLL evaluation checked by TLC in exact arithmetic against the declarative definition; TLC-emitted scenarios replayed on real FCN objects (B3 numeric)",
+        engine="tlc-scenario",
+    ),
+    "C07": dict(
+        category="exploration",
+        text="spec/Jets.tla defines exact second-order jets over the rationals (+, *, /, ln, general chain rule; cross-checked by five lemmas) and transcribes every hand-written derivative assembly of the code (nll_grad_batch / nll_grad_hessian with the outer-product term / grad_hessp_batch, the cached_int and cached_amp variants, the cfit chain rule through I_sig and I_bg incl. the extended terms, the three bound transforms of VarsManager, the Gaussian-constraint terms of FCN / CombineFCN, SumVar's second-order reconstruction). TLC compares formula and jet on all small jets; TLC also enumerates the applicable scenarios (model kind x bound kinds x floating set x constraints x batch). On real FCN objects the gradient, Hessian and Hessian-vector product are compared with Richardson finite differences of the reported NLL along random directions in fit coordinates (through trans_fcn_grad / trans_f_grad_hess / trans_grad_hessp), together with the value and batch identities.",
+        design_ref="DESIGN.md 5/C07; notes/C07.md",
+        note="Trusted: TLC; TensorFlow's automatic differentiation of one batch; the closed-form bound maps. Interior parameter points; finite differences with three step sizes, two must agree to 1e-6 (else the point is discarded and counted), agreement 1e-5 relative / 1e-7 absolute. Four known findings (cfit-type models inherit the default model's grad_hessp formula).",
+        technique="TLA+ rational 2-jet algebra (Jets.tla) checked by TLC against the assembly formulas transcribed from the code; TLC-enumerated scenarios differentiated numerically on real FCN objects (B3 numeric)",
+        engine="tlc-scenario",
+    ),
 }
 
 NOT_YET = "check not built yet in this round (planned in DESIGN.md 5); not claimed until its specification is bound to the code"
